@@ -222,7 +222,7 @@ static void t25_cb(void *dummy)
 	all_done_check();
 }
 
-static void quiescent(void)
+static int quiescent(void)
 {
 	int i;
 	for (i = 0; i < NW; i++)
